@@ -1,7 +1,9 @@
 pub mod c04;
 pub mod c05;
+pub mod c06;
 pub mod c07;
 pub mod c09;
+pub mod c14;
 pub mod c17;
 pub mod c18;
 pub mod c18b;
@@ -13,8 +15,10 @@ pub fn by_id(id: &str) -> Option<Box<dyn Scenario>> {
     match id {
         "C04" => Some(Box::new(c04::C04)),
         "C05" => Some(Box::new(c05::C05)),
+        "C06" => Some(Box::new(c06::C06)),
         "C07" => Some(Box::new(c07::C07)),
         "C09" => Some(Box::new(c09::C09)),
+        "C14" => Some(Box::new(c14::C14)),
         "C17" => Some(Box::new(c17::C17)),
         "C18" => Some(Box::new(c18::C18)),
         "C19" => Some(Box::new(c19::C19)),
@@ -22,4 +26,4 @@ pub fn by_id(id: &str) -> Option<Box<dyn Scenario>> {
     }
 }
 
-pub const ALL: &[&str] = &["C04", "C05", "C07", "C09", "C17", "C18", "C19"];
+pub const ALL: &[&str] = &["C04", "C05", "C06", "C07", "C09", "C14", "C17", "C18", "C19"];
